@@ -222,7 +222,7 @@ CLAIMED = {
         "arguments) up to forward_project<->back_project; forward projection into a data set writes only set_related_viewgrams of its "
         "subset and fill(0) under the zero flag; only the image-taking back_project wrapper starts a new target; the on-the-fly ray-tracing "
         "projector's tangential loop starts at the smallest |tangential position| of the requested range in all three sign configurations "
-        "(case analysis). the range-taking convenience overloads of the projector base classes hand the caller's viewgrams and ranges to the implementation slot by slot (missing ranges = the viewgrams' full ranges) and the forward wrappers write nothing themselves; in the on-the-fly projector every proj_Siddon call fills every axial position its consumer loop reads; sibling implementations of actual_forward_project agree on overwriting the data present in the viewgrams (plain assignment, or - where the kernels accumulate with += - the requested range of every viewgram is set to 0 before the first kernel call; defect F34, fixed). Linearity, adjointness, additivity and on-the-fly = matrix equality are numerical and NOT decided.",
+        "(case analysis). the range-taking convenience overloads of the projector base classes hand the caller's viewgrams and ranges to the implementation slot by slot (missing ranges = the viewgrams' full ranges) and the forward wrappers write nothing themselves; in the on-the-fly projector every proj_Siddon call fills every axial position its consumer loop reads; sibling implementations of actual_forward_project agree on overwriting the data present in the viewgrams (plain assignment, or - where the kernels accumulate with += - the requested range of every viewgram is set to 0 before the first kernel call; defect F34, fixed). Linearity, adjointness, additivity and on-the-fly = matrix equality are numerical and in get_related_bins_factorised a related bin is listed under range tests of its own coordinates only. NOT decided.",
         technique="static analysis: dual sibling comparison of call skeletons, must-facts guards, who-may-call, sign-case evaluation of "
         "an integer expression",
     ),
@@ -255,7 +255,7 @@ CLAIMED = {
         "tangential position is negated and the ring difference is taken with exchanged end points under the same flag; by closed-form "
         "algebra arc-corrected get_s = tangential position * bin_size (uniform sampling, odd), non-arc-corrected get_s is odd, get_phi is "
         "affine in the view with slope azimuthal_angle_sampling, get_m is affine in the axial position with the segment's axial sampling, "
-        "get_tantheta is odd in the ring difference and even in s and equals the axial distance over the TRANSAXIAL distance of the end points in both geometry families (F39, fixed); the azimuthal offset of view-mashed data is pi/(N/2)*(M-1)/2 with a real-valued (M-1)/2. NOT decided: that get_bin(get_LOR(bin)) returns the same or a "
+        "get_tantheta is odd in the ring difference and even in s and equals the axial distance over the TRANSAXIAL distance of the end points in both geometry families (F39, fixed); the azimuthal offset of view-mashed data is pi/(N/2)*(M-1)/2 with a real-valued (M-1)/2. the coordinate getters of the blocks/generic geometries are components of the one get_LOR conversion (a getter using only the z components of the detection points is refused). voxel sizes and first pixel offsets are among the quantities written with max_digits10 digits (F75, fixed). NOT decided: that get_bin(get_LOR(bin)) returns the same or a "
         "neighbouring bin, agreement of the coordinates with the detectors' physical positions, TOF bin boundaries, arc correction "
         "preserving integrals (floating-point geometry over runtime scanner parameters).",
         technique="static analysis: typestate (range test after last modification) over clang CFG with short-circuit-aware ordering, "
@@ -268,7 +268,7 @@ CLAIMED = {
         "upper bound; its start depends on the boundary condition) - so no coefficient is dropped and nothing outside the kernel is read; "
         "inverse_fourier / inverse_fourier_1d are the forward transform with the opposite sign followed by division by the number of "
         "elements; the padded-DFT filter moves data into and out of the periodic padded array only through the modulo map and its dual "
-        "(copy in, filter in place, copy out, on every path); every call between the transforms passes an expression of the caller's sign for the callee's sign parameter (found by data flow from the exponent), never the default; no length guard of the one-dimensional transforms refuses an array length that arises for data of a supported length (powers of two 2..1024; guards folded over that list, following resize() and the calls between the transforms), and the real-data inverse returns as many elements as the forward transform was given (F62, fixed); kernel builders that limit the kernel by a maximum size rescale what they keep by a sum taken after the limit (F63, fixed). NOT decided: every numerical identity of C19 (inverse of forward, real/complex agreement, Parseval, padded-DFT route = "
+        "(copy in, filter in place, copy out, on every path); every call between the transforms passes an expression of the caller's sign for the callee's sign parameter (found by data flow from the exponent), never the default; no length guard of the one-dimensional transforms refuses an array length that arises for data of a supported length (powers of two 2..1024; guards folded over that list, following resize() and the calls between the transforms), and the real-data inverse returns as many elements as the forward transform was given (F62, fixed); kernel builders that limit the kernel by a maximum size rescale what they keep by a sum taken after the limit (F63, fixed). influencing and influenced index ranges of the convolution filters are dual (closed-form algebra); is_trivial() of the N-dimensional filters tests all N nesting levels of the kernel (F74, fixed). NOT decided: every numerical identity of C19 (inverse of forward, real/complex agreement, Parseval, padded-DFT route = "
         "direct convolution, separability, mean preservation).",
         technique="static analysis: loop-bound shape rule per subscript axis over canonical keys with single-definition locals inlined; "
         "resolved-callee/argument check of the inverse transforms",
@@ -284,7 +284,7 @@ CLAIMED = {
         "enumerator (preserve_sum unscaled, preserve_values product of all zooms, preserve_projections product of the zooms except x); the "
         "in-place and parameter-taking variants delegate to the one implementation with their own arguments in order. The geometry SSRB builds "
         "gives every output segment the ring-difference range and the axial extent (min/max of m reduced over ALL combined input segments) "
-        "of the input segments o*n-n/2..o*n+n/2 it combines; the per-plane zoom takes its shortcut only for equal x- and y-size and numbers the planes of the new image from its own first plane (F58, F59, fixed). NOT decided: that "
+        "of the input segments o*n-n/2..o*n+n/2 it combines; the per-plane zoom takes its shortcut only for equal x- and y-size and numbers the planes of the new image from its own first plane (F58, F59, fixed). the detector tables a cloned geometry carries store nothing the setters change (C01.e evaluated here, because SSRB makes its output geometry by clone() and setters); the axial match of SSRB uses a tolerance that scales with the sampling (F76, fixed). NOT decided: that "
         "matching by get_m / get_k puts every input sinogram into the right output sinogram, count conservation, centre of mass, "
         "uniformity (numerical, over runtime data).",
         technique="static analysis: typestate of the output buffer (fresh/accumulate/store) by dominance and must-pass-through, normalised "
